@@ -177,6 +177,91 @@ theorem C09_fold_mirror (S : Spec) : foldSpec (reverseSpec S) = foldSpec S := by
     · rfl
     · rfl
 
+/-! ## the operands survive: `fold` / `unfold` are not in-place -/
+
+/-- `x.fold()` and `x.unfold()` leave `x` itself as it was — data and mask on every entry (for every mask pattern, in
+    particular masks that are not mirror-symmetric), shape, folding status, labels — whether they return or raise; and
+    the spectrum they construct is not handed memory of `x` uncopied (so masking the result later, e.g. its corners,
+    cannot reach `x`).  `foldSelfAfter` / `unfoldSelfAfter` are built from the generated state of `self.data` /
+    `self.mask` after the translated statements (in-place updates through local aliases of the caller's buffers
+    included).  Hence a model passed to a likelihood function with folded data (`model = model.fold()`,
+    `C09_autofold`) is the same model afterwards. -/
+theorem C09_fold_pure (S : Spec) :
+    (∀ k < S.N, (foldSelfAfter S).x k = S.x k ∧ (foldSelfAfter S).m k = S.m k
+              ∧ (unfoldSelfAfter S).x k = S.x k ∧ (unfoldSelfAfter S).m k = S.m k)
+    ∧ (foldSelfAfter S).shape = S.shape ∧ (foldSelfAfter S).folded = S.folded ∧ (foldSelfAfter S).popIds = S.popIds
+    ∧ (unfoldSelfAfter S).shape = S.shape ∧ (unfoldSelfAfter S).folded = S.folded ∧ (unfoldSelfAfter S).popIds = S.popIds
+    ∧ fold_outSharesSelf = false ∧ unfold_outSharesSelf = false := by
+  refine ⟨fun k hk => ⟨?_, ?_, ?_, ?_⟩, ?_, ?_, ?_, ?_, ?_, ?_, by decide, by decide⟩
+  · unfold foldSelfAfter; split_ifs
+    · rfl
+    · show (tabulate S.N _).getD k _ = _
+      rw [tabulate_getD _ _ _ hk]; rfl
+  · unfold foldSelfAfter; split_ifs
+    · rfl
+    · show (tabulate S.N _).getD k _ = _
+      rw [tabulate_getD _ _ _ hk]; rfl
+  · unfold unfoldSelfAfter; split_ifs
+    · rfl
+    · show (tabulate S.N _).getD k _ = _
+      rw [tabulate_getD _ _ _ hk]; rfl
+  · unfold unfoldSelfAfter; split_ifs
+    · rfl
+    · show (tabulate S.N _).getD k _ = _
+      rw [tabulate_getD _ _ _ hk]; rfl
+  all_goals first | (unfold foldSelfAfter; split_ifs <;> rfl) | (unfold unfoldSelfAfter; split_ifs <;> rfl)
+
+/-- …as whole records, for a well-formed spectrum (arrays as long as the shape says). -/
+theorem C09_fold_pure_record (S : Spec) (hd : S.data.size = S.N) (hm : S.mask.size = S.N) :
+    foldSelfAfter S = S ∧ unfoldSelfAfter S = S := by
+  obtain ⟨hk, h1, h2, h3, h4, h5, h6, _, _⟩ := C09_fold_pure S
+  have key : ∀ A : Spec, A.data.size = S.N → A.mask.size = S.N → (∀ k < S.N, A.x k = S.x k ∧ A.m k = S.m k) →
+      A.shape = S.shape → A.folded = S.folded → A.popIds = S.popIds → A = S := by
+    intro A had ham hx hs hf hp
+    apply spec_eq_of hs ?_ ?_ hf hp
+    · apply Array.ext (by rw [had, hd])
+      intro k h1 h2
+      have hkN : k < S.N := by rw [← had]; exact h1
+      have := (hx k hkN).1
+      simpa [Spec.x, Array.getD, h1, h2] using this
+    · apply Array.ext (by rw [ham, hm])
+      intro k h1 h2
+      have hkN : k < S.N := by rw [← ham]; exact h1
+      have := (hx k hkN).2
+      simpa [Spec.m, Array.getD, h1, h2] using this
+  have sz : ∀ (A : Spec), (A = S ∨ (A.data.size = S.N ∧ A.mask.size = S.N)) → A.data.size = S.N ∧ A.mask.size = S.N := by
+    rintro A (rfl | h)
+    · exact ⟨hd, hm⟩
+    · exact h
+  have hF := sz (foldSelfAfter S) (by
+    unfold foldSelfAfter; split_ifs
+    · exact Or.inl rfl
+    · exact Or.inr ⟨tabulate_size _ _, tabulate_size _ _⟩)
+  have hU := sz (unfoldSelfAfter S) (by
+    unfold unfoldSelfAfter; split_ifs
+    · exact Or.inl rfl
+    · exact Or.inr ⟨tabulate_size _ _, tabulate_size _ _⟩)
+  exact ⟨key _ hF.1 hF.2 (fun k h => ⟨(hk k h).1, (hk k h).2.1⟩) h1 h2 h3,
+         key _ hU.1 hU.2 (fun k h => ⟨(hk k h).2.2.1, (hk k h).2.2.2⟩) h4 h5 h6⟩
+
+/-- non-vacuity: a 2×3 spectrum with a mask that is not mirror-symmetric (entry (0,1) masked, its mirror (1,1) not) -/
+example : ∃ S : Spec, S.data.size = S.N ∧ S.mask.size = S.N ∧ S.m 1 = true ∧ S.m (S.mir 1) = false
+    ∧ ∃ F, foldSpec S = .ok F ∧ F.m (S.mir 1) = true ∧ foldSelfAfter S = S :=
+  let S : Spec := ⟨[2, 3], #[0, 1, 2, 3, 4, 5], #[false, true, false, false, false, false], false, some ["a", "b"]⟩
+  ⟨S, rfl, rfl, rfl, rfl, foldOut S, (C09_fold_guard S).1 rfl, by decide, (C09_fold_pure_record S rfl rfl).1⟩
+
+/-- The operator templates contain no statement that stores into `other` (the binary ones: nor into `self`), and no
+    function of the likelihood family `f(model, data, …)` of `Inference.py` contains a statement that stores into one
+    of its two arguments (item/attribute assignment, in-place operator, mutating method, `out=`): the only thing they do
+    to the model is rebind the local name to `model.fold()` (`C09_autofold`), which leaves it alone (`C09_fold_pure`).
+    (Syntactic scan of the current source by the translator; behaviour — operands compared before/after — is L3.) -/
+theorem C09_operands_not_stored :
+    templatesLeaveOperands = true ∧ likelihoodStoresIntoArgs = []
+    ∧ (∀ f ∈ ["ll", "ll_per_bin", "ll_multinom", "ll_multinom_per_bin", "optimal_sfs_scaling", "optimally_scaled_sfs",
+              "linear_Poisson_residual", "Anscombe_Poisson_residual"], f ∈ likelihoodFamily)
+    ∧ (∀ f ∈ autofoldFunctions, f ∈ likelihoodFamily) := by
+  decide
+
 /-! ## unfold, and fold ∘ unfold ∘ fold = fold -/
 
 /-- `unfold` is defined exactly on folded spectra; its data is the symmetric split `(y + mirror y)/2`,
